@@ -55,7 +55,8 @@ Proof.
 Qed.
 Lemma h_sp_log : forall b n h s h1 s1, h_sp E C fault b n h s = (h1, s1) -> s_txlog s1 = s_txlog s.
 Proof.
-  intros b n h s h1 s1 H. unfold h_sp, exec_sp, issue in H.
+  intros b n h s h1 s1 H. unfold h_sp in H.
+  destruct (c_nosp C); [inversion H; reflexivity|]. unfold exec_sp, issue in H.
   destruct h as [e|].
   - destruct (c_report C); inversion H; reflexivity.
   - destruct (s_tx s).
